@@ -191,7 +191,7 @@ class Interp:
             # fields of objects created in the constructor (state objects' .protocol, _pingReq.pdu ...)
             if isinstance(obj, tuple) and obj[0] == "new":
                 owner_cls = self.prog.classes.get(obj[1])
-                if field == "protocol" or (field not in ("timer", "alarm", "keepalive")):
+                if field == "protocol" or (field not in self.prog.field_roles()["mutable"]):
                     if field in ("encoded",):
                         continue
                     stable[(obj, field)] = val
@@ -243,6 +243,9 @@ class Interp:
 
     # ------------------------------------------------------------------
     def emit(self, st, fx, kind, node, **a):
+        if kind == "REG" and a.get("val") == NONE:
+            raise AnalysisError("None stored into registry %s at %s:%d (entries are assumed to be request objects)" % (
+                a.get("reg"), fx.func.file, getattr(node, "lineno", 0)))
         e = Ev(kind, a, fx.func.file, getattr(node, "lineno", 0), fx.func.qual, st.stack, st.conds, node)
         e.seq = len(st.events)
         st.events.append(e)
